@@ -43,15 +43,23 @@ func X25519Public(scalar []byte) []byte {
 
 const x25519Info = "age-encryption.org/v1/X25519"
 
-func X25519Wrap(fileKey, recipient, ephemeral []byte) (Stanza, error) {
+// X25519WrapKey is the one-time key under which the file key is sealed.
+func X25519WrapKey(recipient, ephemeral []byte) ([]byte, error) {
 	share := X25519Public(ephemeral)
 	shared, err := X25519(ephemeral, recipient)
 	if err != nil {
-		return Stanza{}, err
+		return nil, err
 	}
 	salt := append(append([]byte{}, share...), recipient...)
-	wk := HKDF(shared, salt, []byte(x25519Info), 32)
-	return Stanza{Type: "X25519", Args: []string{B64(share)}, Body: aeadWrap(wk, fileKey)}, nil
+	return HKDF(shared, salt, []byte(x25519Info), 32), nil
+}
+
+func X25519Wrap(fileKey, recipient, ephemeral []byte) (Stanza, error) {
+	wk, err := X25519WrapKey(recipient, ephemeral)
+	if err != nil {
+		return Stanza{}, err
+	}
+	return Stanza{Type: "X25519", Args: []string{B64(X25519Public(ephemeral))}, Body: aeadWrap(wk, fileKey)}, nil
 }
 
 func X25519Unwrap(s Stanza, secret []byte) ([]byte, error) {
@@ -91,11 +99,17 @@ func ScryptWrap(fileKey []byte, pass string, salt []byte, logN int) Stanza {
 
 // ScryptWrapArg seals at work factor logN but writes wfArg as the stanza's
 // work-factor argument (for malformed-argument cases).
-func ScryptWrapArg(fileKey []byte, pass string, salt []byte, logN int, wfArg string) Stanza {
+// ScryptWrapKey is the key derived from the passphrase and salt.
+func ScryptWrapKey(pass string, salt []byte, logN int) []byte {
 	k, err := scrypt.Key([]byte(pass), append([]byte(scryptInfo), salt...), 1<<uint(logN), 8, 1, 32)
 	if err != nil {
 		panic(err)
 	}
+	return k
+}
+
+func ScryptWrapArg(fileKey []byte, pass string, salt []byte, logN int, wfArg string) Stanza {
+	k := ScryptWrapKey(pass, salt, logN)
 	return Stanza{Type: "scrypt", Args: []string{B64(salt), wfArg}, Body: aeadWrap(k, fileKey)}
 }
 
@@ -216,22 +230,30 @@ func EdSeedToScalar(seed []byte) []byte {
 	return h[:32]
 }
 
-func SSHEd25519Wrap(fileKey, edPub, ephemeral []byte) (Stanza, error) {
+// SSHEd25519WrapKey is the one-time key under which the file key is sealed.
+func SSHEd25519WrapKey(edPub, ephemeral []byte) ([]byte, error) {
 	wire := SSHEd25519Wire(edPub)
 	mont := EdToMontgomery(edPub)
 	share := X25519Public(ephemeral)
 	shared, err := X25519(ephemeral, mont)
 	if err != nil {
-		return Stanza{}, err
+		return nil, err
 	}
 	tweak := HKDF(nil, wire, []byte(sshEd25519Info), 32)
 	shared, err = X25519(tweak, shared)
 	if err != nil {
-		return Stanza{}, err
+		return nil, err
 	}
 	salt := append(append([]byte{}, share...), mont...)
-	wk := HKDF(shared, salt, []byte(sshEd25519Info), 32)
-	return Stanza{Type: "ssh-ed25519", Args: []string{SSHTag(wire), B64(share)}, Body: aeadWrap(wk, fileKey)}, nil
+	return HKDF(shared, salt, []byte(sshEd25519Info), 32), nil
+}
+
+func SSHEd25519Wrap(fileKey, edPub, ephemeral []byte) (Stanza, error) {
+	wk, err := SSHEd25519WrapKey(edPub, ephemeral)
+	if err != nil {
+		return Stanza{}, err
+	}
+	return Stanza{Type: "ssh-ed25519", Args: []string{SSHTag(SSHEd25519Wire(edPub)), B64(X25519Public(ephemeral))}, Body: aeadWrap(wk, fileKey)}, nil
 }
 
 func SSHEd25519Unwrap(s Stanza, seed, edPub []byte) ([]byte, error) {
